@@ -139,15 +139,12 @@ def run_schedule(st0, schedule):
 init = make_initial()
 idx = list(range(K_UPD))
 schedules = [[list(p)] for p in itertools.permutations(idx)]
+schedules += [[[i] for i in p] for p in itertools.permutations(idx)]
+schedules += [[idx + [idx[0]]], [[idx[-1]]] + [idx]]
 if T == 'thorough':
-    # three updates: every batch order, two one-by-one orders, repetition, one split delivery.  (All one-by-one orders and all
-    # splits - path pairs grow with the product of the two schedules' path counts - ran past three hours and were cut back.)
-    schedules += [[[i] for i in p] for p in (idx, idx[::-1])]
-    schedules += [[idx + [idx[0]]], [[idx[-1]]] + [idx]]
-    schedules += [[idx[:1], idx[1:]]]
-else:
-    schedules += [[[i] for i in p] for p in itertools.permutations(idx)]
-    schedules += [[idx + [idx[0]]], [[idx[-1]]] + [idx]]
+    # three updates: every batch order, every one-by-one order, repetition, three split deliveries; one worker process per
+    # schedule (path pairs grow with the product of the two schedules' path counts; sequentially this ran past three hours)
+    schedules += [[idx[:1], idx[1:]], [idx[:2], idx[2:]], [idx[2:], idx[:2]]]
 ck.declare('G3_merge_order_independent', f'{K_UPD} updates, {len(schedules)} delivery schedules (orders, one-by-one, repetition), 0..{ex.default_maxlen} prior members',
            'every schedule of the same update set yields the same (health, incarnation) per member')
 ck.declare('G3_no_tie', 'same, updates of one member never tie on (incarnation, timestamp) with different health', 'as G3')
@@ -188,10 +185,12 @@ def literal_sets(st):
     return pos, neg
 
 
-pairs = 0
 ref_lits = [literal_sets(fa) for fa in ref_states]
 ref_views = [view_of(fa) for fa in ref_states]
-for sch in schedules[1:]:
+
+
+def compare_schedule(sch):
+    pairs = 0
     finals = run_schedule(init, sch)
     fin_lits = [literal_sets(fb) for fb in finals]
     for ia, fa in enumerate(ref_states):
@@ -221,6 +220,10 @@ for sch in schedules[1:]:
             tie = tie_shape(fa)
             ck.require(ex, 'G3_merge_order_independent', pc, None, eq, wit, lambda m, w: 'gossip-tie')
             ck.require(ex, 'G3_no_tie', pc, z3.Not(tie), eq, wit, lambda m, w: 'merge-order')
+    return pairs
+
+
+pairs = sum(p or 0 for p in ck.parallel(schedules[1:], compare_schedule, jobs=16 if T == 'thorough' else 4))
 ck.notes.append(f'{pairs} jointly satisfiable path pairs compared')
 
 # ------------------------------------------------------------------ G4/G5: monotonicity of clock and incarnations under every operation
